@@ -1,3 +1,190 @@
-/- C16 — property theorems (stub: the property is not claimed yet). -/
+/-
+  C16 — Reading never writes: queries, serialisers and copies leave documents untouched.
+
+  Property theorems only.  Model: AHP/Model/Observe.lean (observers as state-passing functions on a world of
+  documents, with the writes the code performs: lazy `class`/`style` synchronisation of whatever attribute
+  stores the observer reaches, the parser's `__getstate__`, allocation of clones and unpickled copies outside
+  the documents) on top of AHP/Model/Pickle.lean; lemmas: AHP/Lemmas/Observe.lean, AHP/Lemmas/Pickle.lean.
+
+  `snapshot w` is what the public views show of every document of the world: serialisation, doctype, reset hook,
+  index maps, and per element object identity, uid, name, attribute list, self-closing flag, parent, owner, text,
+  children and block shape.  `CleanW w` (every attribute store has unique keys) is an invariant of every store the
+  constructor and the mutators build; it is what makes the lazy synchronisation idempotent.
+
+  Honest scope (DESIGN §5 C16): for observers that are pure in the code the model's function is the identity on
+  the world and the theorem is immediate — that the Python functions really are pure is established by the
+  correspondence stream and the oracle (snapshot of both documents after every observer), the main instrument
+  for this property.  The proofs carry the observers that do write.
+-/
+import AHP.Lemmas.Observe
 namespace AHP.C16
+open AHP AHP.Pk
+
+def CleanW (w : World) : Prop := ∀ h ∈ w.docs, CleanH h
+
+/-- C16a for the synchronisation itself: `_handleClassAttr` run on *any* set of elements of a document —
+    whatever an observer happens to reach — is invisible through every public view of that document
+    (non-trivial: the raw attribute dict does change). -/
+theorem synchronisation_invisible (h : Holder) (hc : CleanH h) (f : Foot) : snapHolder (matFoot f h) = snapHolder h :=
+  snapHolder_matFoot f h hc
+
+/-- a second synchronisation of a store finds nothing to do (the reason reads can be repeated) -/
+theorem synchronisation_idempotent (a : Attrs) (h : (dkeys a.dict).Nodup) : Attrs.handle (Attrs.handle a) = Attrs.handle a :=
+  Attrs.handle_idem a h
+
+theorem set_map_snap (docs : List Holder) (i : Nat) (h h' : Holder) (hi : docs[i]? = some h)
+    (e : snapHolder h' = snapHolder h) : (docs.set i h').map snapHolder = docs.map snapHolder := by
+  induction docs generalizing i with
+  | nil => simp
+  | cons d ds ih =>
+    cases i with
+    | zero =>
+      simp only [List.getElem?_cons_zero, Option.some.injEq] at hi
+      subst hi
+      simp [List.set, e]
+    | succ k =>
+      simp only [List.getElem?_cons_succ] at hi
+      simp only [List.set, List.map_cons]
+      rw [ih k hi]
+
+/-- **C16a** — every observer (any element of `Obs`: reads with any footprint, the serialisers, attribute
+    lists, cloning, pickling), applied to any document of the world, leaves the snapshot of the *whole world*
+    unchanged. -/
+theorem observer_leaves_snapshot (i : Nat) (o : Obs) (w : World) (hc : CleanW w) : snapshot (obsStep i o w).1 = snapshot w := by
+  unfold obsStep
+  cases hi : w.docs[i]? with
+  | none => rfl
+  | some h =>
+    simp only [snapshot]
+    exact set_map_snap w.docs i h _ hi (snapHolder_obs o h (hc h (List.mem_of_getElem? hi)))
+
+/-- the invariant is kept, so observers can be chained -/
+theorem observer_keeps_clean (i : Nat) (o : Obs) (w : World) (hc : CleanW w) : CleanW (obsStep i o w).1 := by
+  unfold obsStep
+  cases hi : w.docs[i]? with
+  | none => exact hc
+  | some h =>
+    intro h' hm
+    simp only at hm
+    rcases List.mem_or_eq_of_mem_set hm with hm | hm
+    · exact hc h' hm
+    · subst hm; exact clean_obs o h (hc h (List.mem_of_getElem? hi))
+
+/-- **C16b** — closed under sequences: after any sequence of observers on any documents of the world, of any
+    length, the snapshot is the one taken before. -/
+theorem observers_leave_snapshot (ops : List (Nat × Obs)) (w : World) (hc : CleanW w) :
+    snapshot (run w ops) = snapshot w ∧ CleanW (run w ops) := by
+  induction ops generalizing w with
+  | nil => exact ⟨rfl, hc⟩
+  | cons op rest ih =>
+    obtain ⟨i, o⟩ := op
+    simp only [run]
+    have h1 := observer_leaves_snapshot i o w hc
+    have h2 := observer_keeps_clean i o w hc
+    obtain ⟨h3, h4⟩ := ih (obsStep i o w).1 h2
+    exact ⟨h3.trans h1, h4⟩
+
+/-- the number of documents never changes -/
+theorem run_length (ops : List (Nat × Obs)) (w : World) : (run w ops).docs.length = w.docs.length := by
+  induction ops generalizing w with
+  | nil => rfl
+  | cons op rest ih =>
+    obtain ⟨i, o⟩ := op
+    simp only [run]
+    rw [ih]
+    unfold obsStep
+    cases w.docs[i]? <;> simp
+
+theorem canParse_of_snap (h h' : Holder) (e : snapHolder h' = snapHolder h)
+    (k : (∃ t, h = .tree t) ↔ (∃ t, h' = .tree t)) : canParseAgain h' = canParseAgain h := by
+  cases h with
+  | tree t =>
+    obtain ⟨t', ht'⟩ := k.mp ⟨t, rfl⟩
+    subst ht'; rfl
+  | parser p =>
+    cases h' with
+    | tree t' => exact absurd (k.mpr ⟨t', rfl⟩) (by simp)
+    | parser p' =>
+      simp only [snapHolder, HSnap.mk.injEq] at e
+      simp only [canParseAgain]
+      exact e.2.2.1
+
+theorem kind_obs (o : Obs) (h : Holder) : (∃ t, h = .tree t) ↔ (∃ t, (obsHolder o h).1 = .tree t) := by
+  cases h with
+  | tree t =>
+    constructor
+    · intro _
+      cases o <;> simp [obsHolder, matFoot, Holder.root, Holder.setRoot]
+    · intro _; exact ⟨t, rfl⟩
+  | parser p =>
+    constructor
+    · rintro ⟨t, ht⟩; cases ht
+    · rintro ⟨t, ht⟩
+      cases o <;> simp [obsHolder, matFoot, Holder.root, Holder.setRoot] at ht <;> (try (split at ht <;> simp at ht))
+
+/-- **C16c** — after any observer (in particular after pickling the parser) the parser still has its reset
+    hook: `parseStr` on the same object starts from a clean state. -/
+theorem observer_keeps_parser_usable (o : Obs) (h : Holder) (hc : CleanH h) :
+    canParseAgain (obsHolder o h).1 = canParseAgain h :=
+  canParse_of_snap h _ (snapHolder_obs o h hc) (kind_obs o h)
+
+/-- C16c over sequences, through the snapshot (the reset hook is part of it). -/
+theorem observers_keep_reset_hooks (ops : List (Nat × Obs)) (w : World) (hc : CleanW w) :
+    (snapshot (run w ops)).map (·.hasReset) = (snapshot w).map (·.hasReset) := by
+  rw [(observers_leave_snapshot ops w hc).1]
+
+/-- **C16d** (frame) — an observer on document `i` leaves every other document of the world *identical*,
+    not merely snapshot-equal. -/
+theorem observer_frame (i j : Nat) (o : Obs) (w : World) (hne : j ≠ i) : (obsStep i o w).1.docs[j]? = w.docs[j]? := by
+  unfold obsStep
+  cases hi : w.docs[i]? with
+  | none => rfl
+  | some h => simp [List.getElem?_set_ne (fun e => hne e.symm)]
+
+/-- … over sequences that never address document `j`. -/
+theorem observers_frame (ops : List (Nat × Obs)) (j : Nat) (w : World) (hj : ∀ op ∈ ops, op.1 ≠ j) :
+    (run w ops).docs[j]? = w.docs[j]? := by
+  induction ops generalizing w with
+  | nil => rfl
+  | cons op rest ih =>
+    obtain ⟨i, o⟩ := op
+    simp only [run]
+    rw [ih _ (fun op hop => hj op (List.mem_cons_of_mem _ hop))]
+    exact observer_frame i j o w (fun e => hj (i, o) List.mem_cons_self e.symm)
+
+/-- the serialisers return what the snapshot shows: `getHTML` of a parser is the `html` field -/
+theorem getHTML_is_snapshot_html (p : Parser) :
+    (obsHolder .docHtml (.parser p)).2.1 = Out.str (snapHolder (.parser p)).html := by
+  simp [obsHolder, snapHolder]
+
+/-! ### non-vacuity: a reader really writes, and the snapshot really does not move -/
+
+/-- `<div class="a" style="color: red">` as the constructor leaves it: `class` lives in the class list only -/
+def lazyStore : Attrs := ⟨[(sStyle, .style)], [str "a"], [(str "color", str "red")]⟩
+
+def lazyDoc : Holder := .tree (.el 0 0 (str "div") lazyStore false [.text []] [] [] none none)
+
+def rawKeys : Holder → List Str
+  | .tree (.el _ _ _ a _ _ _ _ _ _) => dkeys a.dict
+  | _ => []
+
+def outAttrs : Out → List (Str × Option Str)
+  | .attrs l => l
+  | _ => []
+
+/-- reading the attribute list changes the raw dict (`class` is materialised) … -/
+example : rawKeys lazyDoc = [sStyle] ∧ rawKeys (obsHolder (.attrsList 0) lazyDoc).1 = [sStyle, sClass] := by decide
+
+/-- … returns the full list … -/
+example : outAttrs (obsHolder (.attrsList 0) lazyDoc).2.1 =
+    [(str "style", some (str "color: red")), (str "class", some (str "a"))] := by decide
+
+/-- … and the hypotheses of the theorems hold of this world. -/
+theorem lazyWorld_clean : CleanW ⟨[lazyDoc, lazyDoc], 1, 1⟩ := by
+  intro h hm
+  simp only [List.mem_cons, List.mem_nil_iff, or_false, or_self] at hm
+  subst hm
+  simp only [lazyDoc, CleanH, CleanT, CleanTL, and_true]
+  decide
+
 end AHP.C16
